@@ -25,7 +25,9 @@ RULE = (
     "prefix, redundant re-statement, two prefixes sharing a remote, two remotes sharing a cache, a longer prefix "
     "overriding the remote, one remote paired with two caches, prefixes strictly inside a tracked directory "
     "that redirect the remote of a sub-directory or file, outer prefixes carrying only the cache), 1-3 caches and 1-3 remotes of both local store classes, remote index on/off, "
-    "closed pre-existing remote contents, explicit collection index on/off, and a fault plan: object ids whose "
+    "tmp_dir on the caches on/off (drawn independently), a plain tracked file under another remote of the same "
+    "cache whose content equals a file inside a tracked directory, closed pre-existing remote contents, explicit "
+    "collection index on/off, and a fault plan: object ids whose "
     "final placement into (a subset of) the remotes raises EIO in push round 1, optionally ids whose placement "
     "into the caches fails in a first fetch round. Flow: index.build -> md5 -> save, collect(push=True) + push "
     "twice (faulty, clean), caches emptied, collect + fetch (optionally faulty, then clean), compare(None, idx) + "
